@@ -1348,6 +1348,13 @@ func (t *NftablesTable) applyUpdates() error {
 	for chainName := range t.dirtyChains.All() {
 		t.logCxt.WithField("chainName", chainName).Debug("Checking dirty chain")
 		if _, present := t.desiredStateOfChain(chainName); !present {
+			if _, inDataplane := t.chainToDataplaneHashes[chainName]; !inDataplane {
+				// The chain was marked dirty (for example, it was referenced and then
+				// dereferenced again before this Apply) but it was never programmed, or it
+				// has already gone: there is nothing to flush, and nft rejects the whole
+				// transaction if we name a chain that doesn't exist.
+				continue
+			}
 			// About to delete this chain, flush it first to sever dependencies.
 			t.logCxt.WithFields(logrus.Fields{
 				"chainName": chainName,
@@ -1459,11 +1466,14 @@ func (t *NftablesTable) applyUpdates() error {
 	// above).
 	for chainName := range t.dirtyChains.All() {
 		if _, ok := t.desiredStateOfChain(chainName); !ok {
-			// Chain deletion
-			t.logCxt.WithFields(logrus.Fields{
-				"chainName": chainName,
-			}).Debug("Deleting chain that is no longer needed")
-			tx.Delete(&knftables.Chain{Name: chainName})
+			// Chain deletion.  Only delete chains that exist in the dataplane; deleting a
+			// chain that was never programmed would make nft reject the transaction.
+			if _, inDataplane := t.chainToDataplaneHashes[chainName]; inDataplane {
+				t.logCxt.WithFields(logrus.Fields{
+					"chainName": chainName,
+				}).Debug("Deleting chain that is no longer needed")
+				tx.Delete(&knftables.Chain{Name: chainName})
+			}
 			newHashes[chainName] = nil
 		}
 	}
